@@ -13,7 +13,7 @@ Not decided: the trimmed text over all templates.
 from __future__ import annotations
 
 from ..core import Ctx
-from ..lexrules import end_rule_siblings, lstrip_rules, sign_group_rule
+from ..lexrules import end_rule_siblings, lstrip_rules, sign_group_rule, whitespace_notion_rule
 from .c13 import lexer_key_rule
 
 
@@ -23,6 +23,7 @@ def check(ctx: Ctx) -> str:
     sign_group_rule(ctx, "R2")
     lstrip_rules(ctx, "R3")
     lexer_key_rule(ctx, "R4")
+    whitespace_notion_rule(ctx, "R5")
     # trim_blocks / lstrip_blocks of an overlay take effect only if the overlay neither keeps
     # the parent's lexer nor serves the parent's cached templates
     from . import c13
